@@ -52,7 +52,9 @@ claim("C05",
       "nesting and whatever earlier siblings declared, and restores the stack and the dynamic-tree counter after every element. Tied to iter_sub_expr!/convert_scopes by "
       "differential runs through cfg hooks and to init_scopes_and_binding_map_keys by comparing, for every dynamic value of generated and directed templates, the converted "
       "expression and the collected flag the real analysis left in the AST with the model's (corr:tag_scopes); an independent resolver and the render-vs-reference oracle "
-      "with colliding names, script modules in files and inline, slot-value scopes run against the real code.",
+      "with colliding names, script modules in files and inline, slot-value scopes run against the real code. Generation side: monitor_sound / names_fresh (GE/Thm/C02Writer.lean) - over the "
+      "model of the JavaScript writers, no identifier handed out for a scope variable, parameter or hoisted function equals one visible where it is used, for every operation tree the counter "
+      "monitor accepts; the real generators' writer operations for the generated templates are replayed in the model (text, counters, monitor: corr:js-writer).",
       "Trusted: Lean kernel; axioms within {propext, Classical.choice, Quot.sound}; differential ties; reference renderer; node runner. The generation-time scope stack "
       "(proc_gen/tag.rs) is exercised by the oracle, not modelled.",
       "Lean 4 proof (structural induction / iterator invariant; state machine = lexical specification) + differential correspondence + reference-render oracle")
